@@ -443,7 +443,8 @@ def refusals(ctx, res: Result, fi: FuncInfo, need_dark: bool) -> None:
     dom = cfg.dominators()
     from ..cfg import own_exprs
 
-    work = [n for n in cfg.nodes if n.ast is not None and any(isinstance(x, ast.Call) and src(x.func).endswith(".choice") for e in own_exprs(n) for x in ast.walk(e))]
+    gnames_ = {src(a.targets[0]) for a in walk_no_nested(fi.node) if isinstance(a, ast.Assign) and isinstance(a.value, ast.Call) and src(a.value.func).endswith("default_rng")}
+    work = [n for n in cfg.nodes if n.ast is not None and any(isinstance(x, ast.Call) and (src(x.func).endswith(".choice") or (not src(x.func).endswith("default_rng") and any(isinstance(a_, ast.Name) and a_.id in gnames_ for a_ in x.args))) for e in own_exprs(n) for x in ast.walk(e))]
     if need_dark:
         g = _guard_nodes(ctx, fi, cfg, lambda t: t in ("self.detector.p_dark!=0", "self.detector.p_dark>0", "self.detector.p_dark", "self.detector.p_dark!=0.0", "notself.detector.p_dark==0"))
         good = bool(g) and bool(work) and all(any(x.id in dom[w.id] for x in g) for w in work)
@@ -475,6 +476,16 @@ def seeds(ctx, res: Result, fi: FuncInfo, det: ClassInfo | None) -> None:
     for c in glob:
         res.bad("J1-draws-from-seeded-generator", f"{fi.qualname}:{src(c.func)}", fi.site(c), fi.qualname, "draw uses the global generator, which the seed parameter does not control: a fixed seed does not reproduce the result", construct=src(c)[:120])
     local = [c for c in draws if c not in glob]
+    # a generator built here and handed to a helper that draws with it
+    gnames = {src(a.targets[0]) for a in gens}
+    handed = [c for c in walk_no_nested(fi.node) if isinstance(c, ast.Call) and c not in draws and not src(c.func).endswith("default_rng") and any(isinstance(a_, ast.Name) and a_.id in gnames for a_ in list(c.args) + [k.value for k in c.keywords])]
+    for c in handed:
+        g = next(a_.id for a_ in list(c.args) + [k.value for k in c.keywords] if isinstance(a_, ast.Name) and a_.id in gnames)
+        gd = [a for a in gens if src(a.targets[0]) == g]
+        ok = all(len(a.value.args) == 1 and src(a.value.args[0]) in ("process_random_seed(seed)", "seed") and a.lineno <= c.lineno for a in gd)
+        res.add(ok, "J1-draws-from-seeded-generator", f"{fi.qualname}:{src(c.func)}", fi.site(c), fi.qualname, f"the generator built from process_random_seed(seed) is handed to {src(c.func)}",
+                f"generator `{g}` handed to {src(c.func)} is not built from the seed argument", construct=src(c)[:120])
+    draws = draws + handed
     for c in local:
         g = src(c.func.value)
         gd = [a for a in gens if src(a.targets[0]) == g]
@@ -484,7 +495,7 @@ def seeds(ctx, res: Result, fi: FuncInfo, det: ClassInfo | None) -> None:
         res.add(ok, "J1-draws-from-seeded-generator", f"{fi.qualname}:{src(c.func)}", fi.site(c), fi.qualname, "generator is built in this call from process_random_seed(seed)",
                 f"generator `{g}` is not built from the seed argument before the draw", construct=src(c)[:120])
     if not draws:
-        raise AnalysisError(f"{fi.qualname}: no random draw found")
+        res.frozen(False, "J1-draws-from-seeded-generator", fi.qualname, fi.site(), fi.qualname, "", "no random draw recognised in this function", construct="")
     # detector draws use the global `random` module: seeded by _set_random_seed(seed) before the first call
     dcalls = [c for c in walk_no_nested(fi.node) if isinstance(c, ast.Call) and src(c.func).endswith("_get_output")]
     if dcalls and det is not None:
